@@ -33,6 +33,9 @@ MANIFEST = dict(
 # ----------------------------------------------------------------------------- values
 # ("N",) ("I", z) ("F", z) ("S", str) ("Q", kind, [vals]) with kind l(ist) v(ector) b(ytes) d(ict keys) t(stream) r(ange stream)
 N = ("N",)
+from fractions import Fraction
+NAN = ("X",)   # the float NaN (only in no-crash cases)
+def R(a, b): return ("R", a, b)   # the rational a/b, reduced, b > 1 (reference-only cases: the Gallina value type has no rationals)
 def I(z): return ("I", z)
 def F(z): return ("F", z)
 def S(s): return ("S", s)
@@ -78,6 +81,12 @@ def src(v):
         return "null"
     if t == "I":
         return str(v[1]) if v[1] >= 0 else f"(0-{-v[1]})"
+    if t == "X":
+        return "(0.0/0.0)"
+    if t == "R":
+        return f"({v[1]}/{v[2]})" if v[1] >= 0 else f"((0-{-v[1]})/{v[2]})"
+    if t == "F" and isinstance(v[1], Fraction):
+        return repr(float(v[1]))
     if t == "F":
         return f"{v[1]}.0" if v[1] >= 0 else f"(0-{-v[1]}.0)"
     if t == "S":
@@ -132,6 +141,10 @@ def canon(v):
         return "N"
     if t == "I":
         return f"I{v[1]}"
+    if t == "X":
+        return "Fnan"
+    if t == "R":
+        return f"R{v[1]}/{v[2]}"
     if t == "F":
         return fbits(v[1])
     if t == "S":
@@ -271,13 +284,23 @@ def fn2_tok(g):
 
 
 # --- Python meaning of the family (independent of the Gallina one)
-def is_num(v): return v[0] in "IF"
+def is_num(v): return v[0] in "IFR"
+def numval(v): return Fraction(v[1], v[2]) if v[0] == "R" else Fraction(v[1])
+
+
+def exotic(v):
+    """contains a value the Gallina value type cannot express (rational, fractional float, NaN)"""
+    if v[0] in "RX" or (v[0] == "F" and isinstance(v[1], Fraction)):
+        return True
+    return v[0] == "Q" and any(exotic(e) for e in v[2])
 def vbool(b): return I(1 if b else 0)
 
 
 def veq(a, b):
+    if a[0] == "X" or b[0] == "X":
+        return False   # NaN equals nothing
     if is_num(a) and is_num(b):
-        return a[1] == b[1]
+        return numval(a) == numval(b)
     if a[0] != b[0]:
         return False
     if a[0] == "N":
@@ -293,7 +316,7 @@ class Incomparable(Exception):
 
 def vcmp(a, b):
     if is_num(a) and is_num(b):
-        return (a[1] > b[1]) - (a[1] < b[1])
+        return (numval(a) > numval(b)) - (numval(a) < numval(b))
     if a[0] == "S" and b[0] == "S":
         return (a[1] > b[1]) - (a[1] < b[1])
     if a[0] == "Q" and b[0] == "Q" and a[1] == b[1]:
@@ -309,7 +332,7 @@ def truthy(v):
     if v[0] == "N":
         return False
     if is_num(v):
-        return v[1] != 0
+        return numval(v) != 0
     if v[0] == "S":
         return v[1] != ""
     return len(v[2]) > 0
@@ -325,7 +348,7 @@ def app1(f, x):
     if f == "even":
         return vbool(x[0] == "I" and x[1] % 2 == 0)
     if f == "lt2":
-        return vbool(is_num(x) and x[1] < 2)
+        return vbool(is_num(x) and numval(x) < 2)
     if f == "neg":
         return (x[0], -x[1]) if is_num(x) else x
     if f == "const7":
@@ -677,7 +700,10 @@ def make_case(name, params, args, cmpmode="exact", nf=0):
         call = f"list({call})"   # the harness forces at most 64 stream elements
     stm = "; ".join(f"{n} := {src(a)}" for n, a in zip(names, args))
     prog = (stm + "; " if stm else "") + f"r := ({call}); [r" + "".join(", " + n for n in names) + "]"
-    model = " ".join([MODEL_NAME.get(name, name)] + [ptok(k, v) for k, v in zip(PKINDS.get(name, []), params)] + [tok(a) for a in args])
+    if any(exotic(a) for a in args) or any(isinstance(v, tuple) and v and v[0] in ("N", "I", "F", "S", "Q", "R", "X") and exotic(v) for v in params):
+        model = None
+    else:
+        model = " ".join([MODEL_NAME.get(name, name)] + [ptok(k, v) for k, v in zip(PKINDS.get(name, []), params)] + [tok(a) for a in args])
     return dict(fn=name, params=params, args=args, src=prog, model=model, cmp=cmpmode, nf=nf)
 
 
@@ -836,6 +862,23 @@ def gen_cases(ctx):
                 assert neg(k) in c_["src"], c_["src"]
                 c_["model"] = None
                 cases.append(c_)
+    # ---- rationals and fractional floats (1/2 == 0.5 < 1): order/equality based functions only, judged by the Python
+    # reference alone (Fractions); NaN anywhere: no-crash only
+    ralpha = [R(1, 2), F(Fraction(1, 2)), I(1), I(0), R(3, 2)]
+    rpool = [list(t) for n in range(0, 4) for t in itertools.product(ralpha, repeat=n) if n <= 2 or ctx.rng.random() < (0.3 if quick else 1.0)]
+    for kind in ("l", "v"):
+        for el in (rpool if kind == "l" else rpool[::3]):
+            x = Q(kind, el)
+            for name, ps_ in (("sort", []), ("sort_on", ["id"]), ("sort_on", ["numkey"]), ("unique", []), ("min", []), ("max", []),
+                              ("frequencies", []), ("group_eq", []), ("reverse", []), ("filter", ["lt2"]), ("reject", ["eq1"]),
+                              ("take_while", ["lt2"]), ("count_eq", [R(1, 2)]), ("locate_eq", [F(Fraction(1, 2))]),
+                              ("find_eq", [R(1, 2)]), ("enumerate", []), ("window", [2]), ("sort_by", [("cmpon", "numkey", True)])):
+                cases.append(make_case(name, ps_, [x]))
+    for el in [[NAN], [I(1), NAN], [NAN, NAN, I(1)], [NAN, S("a")], [R(1, 2), NAN]]:
+        for name, ps_ in (("sort", []), ("unique", []), ("min", []), ("max", []), ("frequencies", []), ("group_eq", []), ("reverse", []),
+                          ("sum", []), ("product", []), ("sort_on", ["id"]), ("count_eq", [NAN]), ("locate_eq", [NAN]), ("filter", ["lt2"])):
+            c_ = make_case(name, ps_, [L(el)], "nocrash")
+            cases.append(c_)
     # ---- sort of nested lists: lexicographic where every pair is comparable (documented: "sequences are
     # compared lexicographically"); with an incomparable pair somewhere only no-crash is required
     nrows = [L([]), L([I(1)]), L([I(1), I(2)]), L([F(1)]), L([I(2)]), L([S("a")]), L([I(1), S("a")]), L([L([I(1)])]), L([L([])])]
@@ -1190,6 +1233,7 @@ def run(ctx):
         "aliases_reread": stats["alias_checked"], "reference_vs_spec_disagreements": stats["ref_vs_spec_disagree"],
         "undocumented_form_rejected_and_skipped": stats["undocumented_form_rejected"],
         "no_crash_only_cases": stats["nocrash_only"],
+        "reference_only_cases_with_rationals": sum(1 for c in cases if c["model"] is None and c["cmp"] != "nocrash"),
         "spec_compared": sum(1 for c in cases if c.get("spec") is not None),
         "aliases_and_operator_forms": {k: sum(1 for c in cases if c["fn"] == k) for k in ("concat_alias", "cartesian_alias", "replicate_flip", "str_repeat_flip")},
         "python_reference_compared": sum(1 for c in cases if c.get("ref") is not None),
@@ -1202,6 +1246,8 @@ def run(ctx):
 def val_of_json(j):
     if j[0] == "Q":
         return ("Q", j[1], [val_of_json(e) for e in j[2]])
+    if j[0] == "F" and isinstance(j[1], str):
+        return ("F", Fraction(j[1]))
     return tuple(j)
 
 
